@@ -2,6 +2,7 @@
 from __future__ import annotations
 
 import itertools
+from fractions import Fraction
 import random
 import sys
 from typing import Any, Dict, List
@@ -323,6 +324,28 @@ def gen_cases(tier: str, seed: int) -> List[Dict]:
         add("ediff1d", [P(shape)])
         add("ediff1d", [P(shape, "a", atoms=4), P((2,), "b", names=("q3",), atoms=2)], {"to_end": 1}, tag="-end")
         add("ediff1d", [P(shape, "a", atoms=4), P((), "b", atoms=1), P((1,), "c", atoms=1)], {"to_end": 1, "to_begin": 2}, tag="-both")
+    # operands of different coefficient types: an integer array next to fractional (floating) partners -- the result holds the
+    # exact values (natively: numpy's common type), nothing is cast back to the first operand's type
+    def typed(sp, dt, frac):
+        sp = dict(sp, dtype=dt)
+        sp.pop("pre", None)
+        if frac:
+            sp["slots"] = [[S.lit(Fraction(rng.choice([1, 3, -5, 7]), rng.choice([2, 4]))) for _ in col] for col in sp["slots"]]
+        return sp
+
+    for shape in [(3,), (2, 2)]:
+        pshape = tuple(list(shape[:-1]) + [1])
+        ia = lambda: typed(P(shape, "a", atoms=0), "int64", False)
+        fb = lambda nm=None: typed(P(pshape, "b", names=nm, atoms=0), "float64", True)
+        add("diff", [ia(), fb()], {"n": 1, "axis": -1, "prepend": 1}, tag="-prepend-mixedtypes")
+        add("diff", [ia(), fb(("q1",))], {"n": 2, "axis": -1, "append": 1}, tag="-append-mixedtypes")
+        add("diff", [ia(), fb(), {"kind": "scalar", "shape": [], "slots": [S.lit(Fraction(1, 2))], "carrier": "pyfloat"}], {"n": 1, "axis": -1, "prepend": 1, "append": 2}, tag="-both-mixedtypes")
+        # (numpy.ediff1d refuses ends that do not cast to the array's type under "same_kind": only such choices are in the claim)
+        fa = lambda: typed(P(shape, "a", atoms=0), "float64", True)
+        add("ediff1d", [fa(), typed(P((2,), "b", atoms=0), "int64", False)], {"to_end": 1}, tag="-end-mixedtypes")
+        add("ediff1d", [fa(), typed(P((), "b", atoms=0), "float32", True), typed(P((1,), "c", atoms=0), "int32", False)], {"to_end": 1, "to_begin": 2}, tag="-both-mixedtypes")
+    add("inner", [typed(P((2,), "a", atoms=0), "int64", False), typed(P((2,), "b", atoms=0), "float64", True)], tag="-mixedtypes")
+    add("outer", [typed(P((2,), "a", atoms=0), "float32", True), typed(P((2,), "b", atoms=0), "int64", False)], tag="-mixedtypes")
     add("ediff1d", [P((1,))], tag="-single")
     add("diff", [P((1,))], {"n": 1, "axis": 0}, tag="-single")
     # inner (vectors) / outer
